@@ -2888,7 +2888,7 @@ impl Context {
                 (
                     Arc::new(Value::State(retv)),
                     ty,
-                    [states, vec![skeleton]].concat(),
+                    [vec![skeleton], states].concat(),
                 )
             }
             Expr::Let(pat, body, then) => {
